@@ -819,8 +819,53 @@ func genRandom(rng *hlib.Rng) In {
 	return in
 }
 
+// wide ranges: chains of a few thousand blocks fetched with chunk sizes 500, 1000, 2000 (ranges of 501, 1001, 2001 blocks) and, with
+// chunk 100, with the finalized pointer jumping ahead of a long unsafe stretch; watched events every 50 blocks and on the blocks
+// around every multiple of 1000 (a range fetched in pages has its page boundaries there)
+func genWide() []In {
+	var ins []In
+	mk := func(L uint64) [][]LogIn {
+		chain := make([][]LogIn, L+1)
+		chain[0] = []LogIn{}
+		for k := uint64(1); k <= L; k++ {
+			chain[k] = []LogIn{}
+			m := k % 1000
+			if k%50 == 0 || m <= 3 || m >= 997 {
+				chain[k] = []LogIn{{A: 1, T: 1}}
+				if k%7 == 0 {
+					chain[k] = append(chain[k], LogIn{A: 2, T: 2})
+				}
+			}
+		}
+		return chain
+	}
+	for _, chunk := range []uint64{500, 1000, 2000} {
+		L := uint64(3100)
+		if chunk == 2000 {
+			L = 4100
+		}
+		var ticks []TickIn
+		for i := 0; i < 30; i++ {
+			ticks = append(ticks, TickIn{Tip: L, Fin: L})
+		}
+		ins = append(ins, In{Kind: "wide", Chunk: chunk, Mode: "LF", Addrs: []int{1, 2}, Topics: []int{1, 2}, Chain: mk(L), Ticks: ticks, Buf: 100})
+	}
+	// chunk 100: the finalized pointer stays at 5 while the tip is far ahead, then jumps to the tip
+	L := uint64(2100)
+	var ticks []TickIn
+	for i := 0; i < 12; i++ {
+		ticks = append(ticks, TickIn{Tip: L, Fin: 5})
+	}
+	for i := 0; i < 60; i++ {
+		ticks = append(ticks, TickIn{Tip: L, Fin: L})
+	}
+	ins = append(ins, In{Kind: "wide", Chunk: 100, Mode: "LF", Addrs: []int{1, 2}, Topics: []int{1, 2}, Chain: mk(L), Ticks: ticks, Buf: 100})
+	return ins
+}
+
 func gen(f *hlib.Flags) []In {
 	var ins []In
+	ins = append(ins, genWide()...)
 	if f.Tier == "thorough" {
 		ins = append(ins, genExhaustive(6)...)
 	} else {
